@@ -41,6 +41,15 @@ def generate(tier, seed):
             if L > 4:
                 r[4] = 1
             h(rng.bytes(kl), r)
+    # keys whose bytes happen to be text (hex digits, as key strings are displayed; printable ASCII): a key is the
+    # bytes the configuration hands over, of 16, 24 or 32 bytes -- 48 or 64 bytes are no key at all
+    for kl in (16, 24, 32, 48, 64):
+        for alphabet in (b"0123456789abcdef", b"0123456789ABCDEF", b"abcdefghijklmnopqrstuvwxyz"):
+            key = [alphabet[rng.below(len(alphabet))] for _ in range(kl)]
+            for L in (9, 20, 24, 40):
+                r = rng.bytes(L)
+                r[4] = 1 if L % 2 == 0 else 2
+                h(key, r)
     # empty / nil key with and without debug logging, every payload length around the header
     for L in (0, 8, 9, 10, 24, 40):
         for dbg in (0, 1):
